@@ -960,6 +960,629 @@ class _Case(tuple):
         return f"reencode {self[0]} #{self[1]}"
 
 
+# ---------------------------------------------------------------------------------------------
+# sessions: ONE writer object / ONE reader object per session (model: PyodaModel/Codec/Session.lean)
+# ---------------------------------------------------------------------------------------------
+#
+# codec.session <pool> <endPeeks> <item>...      item = [<n>*]<kind>=<payload> | P.clear | P.set=<pool> | P.app=<str> | /
+#   one real _DateTimeZoneWriter writes every document of the script into one BytesIO (the CALLER changes the shared
+#   pool list as scripted); then one real _DateTimeZoneReader over all the bytes reads the documents back, its pool
+#   list set (in place) at the start of each document to what the writer's pool was at the end of that document,
+#   calling has_more_data n times before each read and endPeeks times at the end.
+# codec.rsession <pool> <hex> <ract>...          ract = ? | b | c | sc | ms | of | tr=<prev> | s | d | yo | rec | P.set=<pool>
+#   one real reader over the given bytes.
+
+def _split_tok(tok):
+    head, eq, payload = tok.partition("=")
+    return head, (payload if eq else None)
+
+
+def _apply_pool_act(pool, head, payload):
+    """the caller's action on the shared list, in place"""
+    if pool is None:
+        return
+    if head == "P.clear":
+        pool.clear()
+    elif head == "P.set":
+        pool[:] = p_pool(payload)
+    elif head == "P.app":
+        pool.append("" if payload == "~" else s_of(payload))
+    else:
+        raise ValueError("pool action " + head)
+
+
+def _dict_of(payload):
+    if payload == "":
+        return {}
+    kv = ["" if x == "~" else s_of(x) for x in payload.split("/")]
+    return {kv[i]: kv[i + 1] for i in range(0, len(kv), 2)}
+
+
+def f_kv(d) -> str:
+    return "[]" if not d else ",".join(f_poolstr(k) + "=" + f_poolstr(v) for k, v in d.items())
+
+
+def _build_value(kind, payload):
+    """the Python object a value token stands for (constructors run here and may raise)"""
+    if kind in ("b", "c", "sc", "ms"):
+        return int(payload)
+    if kind == "of":
+        return offs(int(payload))
+    if kind == "tr":
+        a, b = payload.split("/")
+        return (p_optinst(a), p_inst(b))
+    if kind == "s":
+        return s_of(payload)
+    if kind == "d":
+        return _dict_of(payload)
+    if kind == "yo":
+        return p_yo(payload)
+    if kind == "rec":
+        return p_rec(payload)
+    raise ValueError("value kind " + kind)
+
+
+def _write_value(w, kind, v):
+    if kind == "b":
+        w.write_byte(v)
+    elif kind == "c":
+        w.write_count(v)
+    elif kind == "sc":
+        w.write_signed_count(v)
+    elif kind == "ms":
+        w.write_milliseconds(v)
+    elif kind == "of":
+        w.write_offset(v)
+    elif kind == "tr":
+        w.write_zone_interval_transition(v[0], v[1])
+    elif kind == "s":
+        w.write_string(v)
+    elif kind == "d":
+        w.write_dictionary(v)
+    else:
+        v._write(w)
+
+
+def _read_text(r, kind, prev=None):
+    """one read call on the reader, result in the model's text form"""
+    if kind == "b":
+        return str(r.read_byte())
+    if kind == "c":
+        return str(r.read_count())
+    if kind == "sc":
+        return str(r.read_signed_count())
+    if kind == "ms":
+        return str(r.read_milliseconds())
+    if kind == "of":
+        return str(r.read_offset().seconds)
+    if kind == "tr":
+        return f_inst(r.read_zone_interval_transition(prev))
+    if kind == "s":
+        return hexs(r.read_string().encode("utf-8"))
+    if kind == "d":
+        return f_kv(r.read_dictionary())
+    if kind == "yo":
+        return f_yo(_yo_cls().read(r))
+    if kind == "rec":
+        from pyoda_time.time_zones._zone_recurrence import _ZoneRecurrence
+        return f_rec(_ZoneRecurrence.read(r))
+    raise ValueError("read kind " + kind)
+
+
+def _expected_text(kind, payload):
+    """the text the reader must give back for a written value token (canonical tokens only)"""
+    if kind == "tr":
+        return payload.split("/")[1]
+    if kind == "d":
+        return f_kv(_dict_of(payload))
+    if kind == "s":
+        return hexs(s_of(payload).encode("utf-8"))
+    return payload
+
+
+def _buffered(r):
+    b = getattr(r, "_DateTimeZoneReader__buffered_byte")
+    return "-" if b is None else bytes([b]).hex()
+
+
+def run_session(t):
+    """drives the real objects; returns a dict with everything impl and oracle need"""
+    from common import exc_name
+    R, W = _io()
+    pool0 = p_pool(t[1])
+    end_peeks = int(t[2])
+    pool = None if pool0 is None else list(pool0)
+    buf = io.BytesIO()
+    w = W._ctor(buf, pool)
+    res = {"wtoks": [], "writes": [], "docs": [[]], "snaps": [], "werr": None, "rtoks": [], "reads": [], "peeks": [],
+           "end_peeks": [], "rerr": None, "final": None, "pools_before": []}
+    for tok in t[3:]:
+        if tok == "/":
+            res["snaps"].append(None if pool is None else list(pool))
+            res["docs"].append([])
+            continue
+        head, payload = _split_tok(tok)
+        if head.startswith("P."):
+            _apply_pool_act(pool, head, payload)
+            res["wtoks"].append(".")
+            continue
+        n, star, kind = head.rpartition("*")
+        peeks = int(n) if star else 0
+        pos = buf.tell()
+        before = None if pool is None else list(pool)
+        stage = "construct"
+        try:
+            v = _build_value(kind, payload)
+            stage = "write"
+            _write_value(w, kind, v)
+        except Exception as e:  # noqa: BLE001
+            res["wtoks"].append(exc_name(e))
+            res["werr"] = (kind, payload, exc_name(e), stage)
+            return res
+        data = buf.getvalue()[pos:]
+        res["wtoks"].append(hexs(data))
+        res["writes"].append((kind, payload, data, before))
+        res["docs"][-1].append((peeks, kind, payload))
+    res["snaps"].append(None if pool is None else list(pool))
+    res["final_pool"] = None if pool is None else list(pool)
+    data = buf.getvalue()
+    res["data"] = data
+    rpool = None if pool0 is None else list(pool0)
+    st = io.BytesIO(data)
+    r = R._ctor(st, rpool)
+    for doc, snap in zip(res["docs"], res["snaps"]):
+        if snap is not None:
+            rpool[:] = snap
+            res["rtoks"].append(".")
+        for peeks, kind, payload in doc:
+            for _ in range(peeks):
+                b = r.has_more_data
+                res["rtoks"].append("1" if b else "0")
+                res["peeks"].append(b)
+            try:
+                prev = p_optinst(payload.split("/")[0]) if kind == "tr" else None
+                txt = _read_text(r, kind, prev)
+            except Exception as e:  # noqa: BLE001
+                res["rtoks"].append(exc_name(e))
+                res["rerr"] = (kind, payload, exc_name(e))
+                return res
+            res["rtoks"].append(txt)
+            res["reads"].append((kind, payload, txt))
+    for _ in range(end_peeks):
+        b = r.has_more_data
+        res["rtoks"].append("1" if b else "0")
+        res["end_peeks"].append(b)
+    res["final"] = f"{len(data) - st.tell()} {_buffered(r)}"
+    return res
+
+
+_SESSION_MEMO: dict = {}
+
+
+def _session_result(t):
+    key = " ".join(t)
+    if _SESSION_MEMO.get("key") != key:
+        _SESSION_MEMO["key"] = key
+        _SESSION_MEMO["res"] = run_session(t)
+    return _SESSION_MEMO["res"]
+
+
+def run_rsession(t, with_peeks=True):
+    from common import exc_name
+    R, _ = _io()
+    pool0 = p_pool(t[1])
+    data = unhex(t[2])
+    rpool = None if pool0 is None else list(pool0)
+    st = io.BytesIO(data)
+    r = R._ctor(st, rpool)
+    toks, reads, peeks = [], [], []
+    for tok in t[3:]:
+        if tok == "?":
+            if with_peeks:
+                b = r.has_more_data
+                toks.append("1" if b else "0")
+                peeks.append((len(reads), b))
+            continue
+        head, payload = _split_tok(tok)
+        if head.startswith("P."):
+            _apply_pool_act(rpool, head, payload)
+            toks.append(".")
+            continue
+        try:
+            txt = _read_text(r, head, p_optinst(payload) if head == "tr" else None)
+        except Exception as e:  # noqa: BLE001
+            toks.append(exc_name(e))
+            reads.append((exc_name(e), None))
+            return toks, reads, peeks, None
+        toks.append(txt)
+        reads.append((txt, len(data) - st.tell()))
+    return toks, reads, peeks, f"{len(data) - st.tell()} {_buffered(r)}"
+
+
+def impl_session(t):
+    if t[0] == "codec.rsession":
+        toks, _, _, final = run_rsession(t)
+        return " ".join(toks) + ("" if final is None else " | " + final)
+    res = _session_result(t)
+    out = "W " + " ".join(res["wtoks"])
+    if res["werr"] is not None:
+        return out
+    out += " | " + f_pool(res["final_pool"]) + " | " + " ".join(res["rtoks"])
+    if res["final"] is not None:
+        out += " | " + res["final"]
+    return out
+
+
+# ---- the direct oracle for sessions (plain Python reference, independent of the Lean model) ------------------
+
+def _in_domain(kind, payload):
+    """is the value one the writer must accept and the reader must give back (the `dom` of DESIGN §6 C14)?"""
+    try:
+        if kind == "b":
+            return 0 <= int(payload) <= 255
+        if kind == "c":
+            return 0 <= int(payload) <= I32MAX
+        if kind == "sc":
+            return I32MIN <= int(payload) <= I32MAX
+        if kind == "ms":
+            return -MSPD < int(payload) < MSPD
+        if kind == "of":
+            return -64800 <= int(payload) <= 64800
+        if kind == "tr":
+            a, b = payload.split("/")
+            d, n = (int(x) for x in b.split(":"))
+            if not is_sentinel(d, n) and (n % 100 != 0 or not (IMIN <= d <= IMAX and 0 <= n < NPD)):
+                return False
+            if a != "-":
+                pd, pn = (int(x) for x in a.split(":"))
+                if (d, n) < (pd, pn):
+                    return False
+                if not is_sentinel(pd, pn) and pn % 100 != 0:
+                    return False
+            return True
+        if kind in ("s", "d"):
+            return True
+        if kind == "yo":
+            return int(payload.split(":")[5]) % 1_000_000 == 0
+        if kind == "rec":
+            n, sv, yo, f, to = payload.split(",")
+            return int(yo.split(":")[5]) % 1_000_000 == 0 and (int(f) == I32MIN or int(f) >= 1) and int(to) >= 0
+    except ValueError:
+        return False
+    return False
+
+
+def _ref_value(pool, kind, payload) -> bytes:
+    """documented encoding of one value; `pool` (a list or None) is the oracle's own copy of the shared pool list
+    as it is AT THE TIME OF THE CALL and is extended like the format says"""
+    if kind == "b":
+        return bytes([int(payload)])
+    if kind == "c":
+        return ref_varint(int(payload))
+    if kind == "sc":
+        return ref_zigzag(int(payload))
+    if kind == "ms":
+        return ref_ms(int(payload))
+    if kind == "of":
+        return ref_ms(int(payload) * 1000)
+    if kind == "tr":
+        a, b = payload.split("/")
+        tup = lambda x: tuple(int(y) for y in x.split(":"))  # noqa: E731
+        return ref_trans(None if a == "-" else tup(a), tup(b))
+    if kind == "s":
+        return ref_str(pool, s_of(payload))
+    if kind == "d":
+        d = _dict_of(payload)
+        out = ref_varint(len(d))
+        for k, v in d.items():
+            out += ref_str(pool, k) + ref_str(pool, v)
+        return out
+    if kind == "yo":
+        return ref_yo(payload)
+    if kind == "rec":
+        return ref_rec(pool, payload)
+    raise ValueError(kind)
+
+
+def _script_is_clean(items, pooled):
+    """pool actions other than append only BETWEEN documents (before the first value of a document)"""
+    if not pooled:
+        return True
+    seen_value = False
+    for tok in items:
+        if tok == "/":
+            seen_value = False
+        elif tok.startswith("P.clear") or tok.startswith("P.set"):
+            if seen_value:
+                return False
+        elif not tok.startswith("P."):
+            seen_value = True
+    return True
+
+
+def oracle_session(t):
+    if t[0] == "codec.rsession":
+        return oracle_rsession(t)
+    res = _session_result(t)
+    items = t[3:]
+    pool0 = p_pool(t[1])
+    label = " ".join(t)[:400]
+    # 1. bytes: every write emitted the documented encoding, with pool indices taken from the list as it was then
+    opool = None if pool0 is None else list(pool0)
+    wi = 0
+    for tok in items:
+        if tok == "/":
+            continue
+        head, payload = _split_tok(tok)
+        if head.startswith("P."):
+            _apply_pool_act(opool, head, payload)
+            continue
+        kind = head.rpartition("*")[2]
+        if wi >= len(res["writes"]):
+            # the writer raised at this value
+            if res["werr"] is not None and res["werr"][3] == "write" and _in_domain(kind, payload):
+                return {"key": "session-write-rejected", "what": f"value {kind}={payload} (write #{wi + 1} of the session) raised {res['werr'][2]}; session: {label}"}
+            return None
+        _, _, data, before = res["writes"][wi]
+        if not _in_domain(kind, payload):
+            return None          # accepted outside the domain: single-value findings cover that; nothing to round-trip
+        exp = _ref_value(opool, kind, payload)
+        if data != exp:
+            stale = kind in ("s", "d", "rec") and opool is not None
+            return {"key": "session-pool-index-stale" if stale else "session-bytes",
+                    "what": f"write #{wi + 1} of one writer session ({kind}={payload}, shared pool list at the time of the call: {before!r}) "
+                            f"emitted {data.hex()}; the documented encoding with that pool is {exp.hex()}; session: {label}"}
+        wi += 1
+    if res["werr"] is not None:
+        return None
+    if opool != res["final_pool"]:
+        return {"key": "session-pool-content", "what": f"shared pool after the session is {res['final_pool']!r}, expected {opool!r}; session: {label}"}
+    # 2. reading back (only when the pool was changed between documents or by appends)
+    if not _script_is_clean(items, pool0 is not None):
+        return None
+    if res["rerr"] is not None:
+        k, pl, e = res["rerr"]
+        return {"key": "session-read-raised", "what": f"reading {k}={pl} back (read #{len(res['reads']) + 1}, after {len(res['peeks'])} has_more_data calls) raised {e}; session: {label}"}
+    exp_vals = [(k, _expected_text(k, pl)) for doc in res["docs"] for (_, k, pl) in doc]
+    got = [(k, txt) for (k, _, txt) in res["reads"]]
+    if got != exp_vals:
+        i = next((j for j, (a, b) in enumerate(zip(got, exp_vals)) if a != b), min(len(got), len(exp_vals)))
+        return {"key": "session-value", "what": f"read #{i + 1} of one reader session gave {got[i] if i < len(got) else None}, written was {exp_vals[i] if i < len(exp_vals) else None} "
+                                                 f"(has_more_data had been called {sum(p for d in res['docs'] for (p, _, _) in d)} times in the session); session: {label}"}
+    if not all(res["peeks"]):
+        return {"key": "session-peek", "what": f"has_more_data returned False before a value that was then read; session: {label}"}
+    if any(res["end_peeks"]) or not res["final"].startswith("0 -"):
+        return {"key": "session-end", "what": f"after reading everything: has_more_data {res['end_peeks']}, stream/buffer state {res['final']}; session: {label}"}
+    return None
+
+
+def oracle_rsession(t):
+    """peeking is pure: the reads give what they give without any has_more_data call, and a peek says whether bytes
+    are left (position taken from the run without peeks)"""
+    toks, reads, peeks, final = run_rsession(t, True)
+    toks0, reads0, _, final0 = run_rsession(t, False)
+    label = " ".join(t)[:300]
+    if [r[0] for r in reads] != [r[0] for r in reads0]:
+        i = next((j for j, (a, b) in enumerate(zip(reads, reads0)) if a[0] != b[0]), min(len(reads), len(reads0)))
+        return {"key": "session-peek-changes-read", "what": f"read #{i + 1} gives {reads[i][0] if i < len(reads) else None} with the has_more_data calls and "
+                                                             f"{reads0[i][0] if i < len(reads0) else None} without them; session: {label}"}
+    data_len = len(unhex(t[2]))
+    for idx, b in peeks:
+        left = data_len if idx == 0 else reads0[idx - 1][1]
+        if left is not None and b != (left > 0):
+            return {"key": "session-peek-wrong", "what": f"has_more_data after read #{idx} returned {b} with {left} bytes left; session: {label}"}
+    if final is not None and final0 is not None:
+        a, b = final.split(" ")[0], final0.split(" ")[0]
+        bufd = final.split(" ")[1] != "-"
+        if int(a) + (1 if bufd else 0) != int(b):
+            return {"key": "session-peek-consumes", "what": f"bytes left at the end: {a} (+{int(bufd)} buffered) with peeks, {b} without; session: {label}"}
+    return None
+
+
+# ---- session generators ---------------------------------------------------------------------------------------
+
+SESSION_NAMES = ["LMT", "GMT", "BST", "", "UTC", "CET", "CEST", "é", "中", "-03", "Europe/London", "\U0001f600", "x" * 130]
+BMIN_T, BMAX_T = f"{DUR_MIN_DAYS}:0", f"{DUR_MAX_DAYS}:0"
+
+
+def _at(total_ns):
+    return f"{total_ns // NPD}:{total_ns % NPD}"
+
+
+def _gen_yo_text(rng, zero=False):
+    if zero:      # flag byte 0x00: UTC mode, no day of week, no advance, no add-day
+        return f"0:{rng.randrange(1, 13)}:{rng.choice([1, 15, -1, 28])}:0:0:{rng.choice([0, 7200 * 10**9, 1800 * 10**9])}:0"
+    tod = rng.choice([rng.randrange(0, 86400) * 10**9, rng.randrange(0, 86_400_000) * 10**6, rng.randrange(0, 48) * 1800 * 10**9, rng.randrange(0, 1440) * 60 * 10**9])
+    return f"{rng.randrange(3)}:{rng.randrange(1, 13)}:{rng.choice([1, -1]) * rng.randrange(1, 29)}:{rng.randrange(0, 8)}:{rng.randrange(2)}:{tod}:{rng.randrange(2)}"
+
+
+def _gen_value(rng, names, prev_state):
+    """one in-domain value token `kind=payload` and the strings it offers to the pool (in order). ~40 % of the
+    values start with a 0x00 byte."""
+    NPH, NPM = 3_600_000_000_000, 60_000_000_000
+    c = rng.random()
+    if c < 0.10:
+        return "c=" + str(rng.choice([0, 0, 0, 1, 127, 128, 16383, 16384, (1 << 21) - 1, 1 << 21, (1 << 28) - 1, 1 << 28, I32MAX, rng.randrange(0, 1 << rng.randrange(1, 32))])), []
+    if c < 0.17:
+        return "sc=" + str(rng.choice([0, 0, -1, 1, 63, -64, 64, -65, 8191, -8192, I32MAX, I32MIN, rng.randrange(I32MIN, I32MAX + 1), rng.randrange(-300, 300)])), []
+    if c < 0.22:
+        return "b=" + str(rng.choice([0, 0, 1, 127, 128, 255, rng.randrange(256)])), []
+    if c < 0.30:
+        v = rng.choice([0, -MSPD + 1800000, 1800000 * rng.randrange(-47, 48), 60000 * rng.randrange(-1439, 1440), 1000 * rng.randrange(-86399, 86400),
+                        rng.randrange(-MSPD + 1, MSPD), MSPD - 1, -MSPD + 1, 30, -30])
+        return f"ms={v}", []
+    if c < 0.37:
+        return "of=" + str(rng.choice([0, 0, 3600, -18000, 64800, -64800, 1800, 34200, rng.randrange(-64800, 64801), 60 * rng.randrange(-1080, 1081)])), []
+    if c < 0.52:
+        k = rng.random()
+        e1800 = E1800_DAYS * NPD
+        lo, hi = IMIN * NPD, (IMAX + 1) * NPD - 100
+        if k < 0.25:
+            prev, v = rng.choice(["-", "-", BMIN_T, _at(rng.randrange(lo, hi) // 100 * 100)]), BMIN_T
+            if prev not in ("-", BMIN_T):
+                prev = BMIN_T
+        elif k < 0.33:
+            prev, v = rng.choice(["-", BMIN_T, _at(rng.randrange(lo, hi) // 100 * 100), BMAX_T]), BMAX_T
+        elif k < 0.58:
+            p = rng.randrange(e1800, 15000 * NPD) // NPM * NPM + rng.choice([0, 0, 10**9, 100])
+            h = rng.choice([128, 129, 4000, 8760, (1 << 21) - 1, rng.randrange(128, 1 << 21), 127, 1 << 21, 1, 0])
+            v = p + h * NPH
+            prev, v = _at(p), (_at(v) if v <= hi else _at(p))
+        elif k < 0.82:
+            m = rng.choice([(1 << 21) + 1, (1 << 21) + 2, 10**8, I32MAX, rng.randrange((1 << 21) + 1, 1 << 27), 1 << 21, I32MAX - 1])
+            prev, v = rng.choice(["-", BMIN_T, _at(e1800 - NPD)]), _at(e1800 + m * NPM)
+        else:
+            x = rng.choice([rng.randrange(lo, hi) // 100 * 100, e1800 - 100, e1800 + 10**9, 0, 100, -100, lo, hi, e1800])
+            prev, v = rng.choice(["-", BMIN_T, _at(lo)]), _at(x)
+        return f"tr={prev}/{v}", []
+    if c < 0.72:
+        if names and rng.random() < 0.7:
+            s = rng.choice(names)
+        else:
+            s = rng.choice(["", "", rand_utf8(rng, 6), "Zz", "x" * rng.choice([1, 127, 128])])
+        return "s=" + h_of(s), [s]
+    if c < 0.82:
+        d = {}
+        for _ in range(rng.choice([0, 0, 1, 2, 3, 5])):
+            k = rng.choice(names) if names and rng.random() < 0.6 else rand_utf8(rng, 4)
+            d[k] = rng.choice(names) if names and rng.random() < 0.6 else rand_utf8(rng, 4)
+        strs = [x for kv in d.items() for x in kv]
+        return "d=" + "/".join(f_poolstr(x) for x in strs), strs
+    if c < 0.92:
+        return "yo=" + _gen_yo_text(rng, zero=rng.random() < 0.45), []
+    name = rng.choice(names) if names else rng.choice(["GMT", "", "BST"])
+    fy = rng.choice([I32MIN, I32MIN, rng.randrange(1, 10000), rng.randrange(1900, 2100)])
+    ty = rng.choice([I32MAX, I32MAX, rng.randrange(0, 10000), rng.randrange(1900, 2100)])
+    yo = f"{rng.randrange(3)}:{rng.randrange(1, 13)}:{rng.choice([1, -1]) * rng.randrange(1, 29)}:{rng.randrange(0, 8)}:{rng.randrange(2)}:{rng.choice([0, 3600 * 10**9, 7200 * 10**9, 1800 * 10**9])}:0"
+    return f"rec={h_of(name)},{rng.choice([0, 3600, -3600, 1800, 64800])},{yo},{fy},{ty}", [name]
+
+
+INVALID_VALUES = ["c=-1", f"c={I32MAX + 1}", "b=256", "b=-1", f"ms={MSPD}", f"ms={-MSPD}", "tr=0:0/-1:0", "of=64801",
+                  "yo=0:13:1:0:0:0:0", "yo=0:1:32:0:0:0:0", f"rec={h_of('X')},0,0:2:30:0:0:0:0,2000,2001", f"rec={h_of('X')},0,0:3:1:0:0:0:0,2000,-5"]
+
+
+def gen_session_ops(ctx, n):
+    rng = ctx.rng
+    ops = []
+    # the seeded-change scenarios, as scripts
+    ops.append("codec.session - 1 c=5 2*c=0 2*c=7 2*c=0 2*c=0 2*c=300")
+    ops.append(f"codec.session [] 1 of=18000 2*s={h_of('UTC+05')} 2*tr=-/{BMIN_T} c=42")
+    ops.append("codec.session - 2 of=0 2*s=-")
+    ops.append(f"codec.session [] 0 s={h_of('LMT')} s={h_of('GMT')} s={h_of('BST')} s={h_of('GMT')} / P.clear s={h_of('LMT')} s={h_of('PMT')} s={h_of('GMT')} s={h_of('BST')} / "
+               f"P.clear d={h_of('GB')}/{h_of('Europe/London')}/{h_of('GMT')}/{h_of('Etc/GMT')}")
+    for _ in range(n):
+        pooled = rng.random() < 0.6
+        names = rng.sample(SESSION_NAMES, rng.randrange(2, 8))
+        pool = [] if pooled and rng.random() < 0.6 else (rng.sample(names, rng.randrange(0, len(names))) if pooled else None)
+        sim = None if pool is None else list(pool)      # the generator's copy of the shared list
+        target = rng.randrange(5, 61)
+        ndocs = rng.choice([1, 1, 2, 3, 4]) if pooled else rng.choice([1, 1, 2])
+        dirty = pooled and rng.random() < 0.12
+        fail_at = rng.randrange(target) if rng.random() < 0.06 else -1
+        items = []
+        per_doc = max(1, target // ndocs)
+        count = 0
+        for d in range(ndocs):
+            if d > 0:
+                items.append("/")
+            if pooled and (d > 0 or rng.random() < 0.3):
+                k = rng.random()
+                if k < 0.45:
+                    items.append("P.clear")
+                    sim.clear()
+                elif k < 0.70 and len(sim) > 1:
+                    rng.shuffle(sim)
+                    items.append("P.set=" + f_pool(sim))
+                elif k < 0.90:
+                    sim[:] = rng.sample(SESSION_NAMES, rng.randrange(0, 5))
+                    items.append("P.set=" + f_pool(sim))
+                else:
+                    x = rng.choice(SESSION_NAMES)
+                    sim.append(x)
+                    items.append("P.app=" + f_poolstr(x))
+                count += 1
+            for _ in range(per_doc):
+                if count == fail_at:
+                    items.append(rng.choice(INVALID_VALUES))
+                    count += 1
+                    continue
+                if pooled and rng.random() < (0.10 if dirty else 0.04):
+                    if dirty and rng.random() < 0.7:
+                        k = rng.random()
+                        if k < 0.4:
+                            items.append("P.clear")
+                            sim.clear()
+                        elif len(sim) > 1:
+                            rng.shuffle(sim)
+                            items.append("P.set=" + f_pool(sim))
+                        else:
+                            sim[:] = rng.sample(SESSION_NAMES, 3)
+                            items.append("P.set=" + f_pool(sim))
+                    else:
+                        x = rng.choice(SESSION_NAMES)
+                        sim.append(x)
+                        items.append("P.app=" + f_poolstr(x))
+                    count += 1
+                # pooled: prefer strings already in the pool (index 0 often), and strings seen in earlier documents
+                cand = names if not pooled else (names + (sim[:1] * 3 if sim else []))
+                tok, strs = _gen_value(rng, cand, None)
+                if sim is not None:
+                    for x in strs:
+                        if x not in sim:
+                            sim.append(x)
+                peeks = rng.choice([0, 0, 1, 1, 2, 2, 3])
+                items.append((f"{peeks}*" if peeks else "") + tok)
+                count += 1
+        if rng.random() < 0.3:
+            items.append("/")
+        ops.append(f"codec.session {f_pool(pool)} {rng.choice([0, 1, 2, 3, 4])} " + " ".join(items))
+    return ops
+
+
+RKINDS = ["b", "c", "sc", "ms", "of", "s", "d", "yo", "rec"]
+
+
+def gen_rsession_ops(ctx, n):
+    """one reader over given bytes: encodings of random values read back with the SAME or with OTHER kinds, hostile
+    bytes, trailing zero bytes; peeks anywhere"""
+    rng = ctx.rng
+    ops = ["codec.rsession - 000500070000ac02 ? ? c ? ? c ? ? c ? ? c ? ? c ? ? c ? ?",
+           "codec.rsession - 3000 of ? ? s ? ?", "codec.rsession - 00 ? ? ? b ? ?", "codec.rsession - - ? ?",
+           "codec.rsession 41,~,42 000102 ? ? s ? s ? ? s ? s"]
+    for _ in range(n):
+        pooled = rng.random() < 0.5
+        pool = rng.sample(SESSION_NAMES, rng.randrange(0, 6)) if pooled else None
+        sim = None if pool is None else list(pool)
+        data = b""
+        acts = []
+        for _ in range(rng.randrange(1, 14)):
+            tok, _ = _gen_value(rng, sim if sim else SESSION_NAMES[:5], None)
+            kind, payload = _split_tok(tok)
+            if kind == "rec":
+                kind, payload = "c", "0"
+            data += _ref_value(sim, kind, payload)
+            k = kind if rng.random() < 0.8 else rng.choice(RKINDS)
+            acts += ["?"] * rng.choice([0, 0, 1, 2, 2, 3])
+            acts.append("tr=" + payload.split("/")[0] if k == "tr" else k)
+        c = rng.random()
+        if c < 0.25:
+            data += bytes(rng.choice([0, 0, 0, 1, 0x80, 0xff, rng.randrange(256)]) for _ in range(rng.randrange(1, 4)))
+        elif c < 0.35 and data:
+            data = data[:rng.randrange(len(data))]
+        elif c < 0.45:
+            data = bytes(rng.choice([0, 0, 1, 2, 0x7f, 0x80, 0x81, 0xff, 0xc0, 0xa0, rng.randrange(256)]) for _ in range(rng.randrange(0, 24)))
+        acts += ["?"] * rng.choice([0, 1, 2, 3])
+        if rng.random() < 0.3:
+            acts += [rng.choice(RKINDS), "?", "?"]
+        # the reader sees the pool as it is at the end (strings appended while "writing")
+        ops.append(f"codec.rsession {f_pool(sim)} {hexs(data)} " + " ".join(acts))
+    return ops
+
+
+def neighbours_session(t):
+    return []
+
+
 def run(ctx):
     nq = ctx.scale(25_000, 400_000)
     ops = gen_prim_ops(ctx, nq)
@@ -973,6 +1596,9 @@ def run(ctx):
     _Cap.reset()
     ctx.correspond("codec.prim.enc", ops, impl, oracle=oracle, neighbours=neighbours)
     ctx.correspond("codec.prim.dec", gen_dec_ops(ctx, nq), impl, oracle=None)
+    ns = ctx.scale(1500, 60_000)
+    ctx.correspond("codec.sessions", gen_session_ops(ctx, ns) + gen_rsession_ops(ctx, ns), impl_session, oracle=oracle_session,
+                   neighbours=neighbours_session)
     if _Cap.suppressed:
         ctx.note("failures_not_listed_individually", dict(_Cap.suppressed))
 
@@ -1096,4 +1722,6 @@ def replay_op(op, failure):
         data = load_file(rel)
         pool_payload, zfs = zone_fields(data)
         return reencode_case((rel, idx, decode_pool(pool_payload), zfs[idx]))
+    if op.startswith("codec.session ") or op.startswith("codec.rsession "):
+        return oracle_session(op.split(" "))
     return oracle(op.split(" "))
